@@ -146,8 +146,28 @@ func (d *placeDrv) dumpQueue(q dao.PartitionQueueDAOInfo, out *[]map[string]inte
 	if !q.IsManaged {
 		a = [2]string{"", ""}
 	}
-	*out = append(*out, map[string]interface{}{"p": q.QueueName, "leaf": q.IsLeaf, "man": q.IsManaged, "drain": q.Status == "Draining", "status": q.Status,
-		"sacl": a[0], "aacl": a[1], "tpl": tpl, "cfg": canonSettings(q.MaxRunningApps, q.MaxResource, q.GuaranteedResource, q.Properties)})
+	line := map[string]interface{}{"p": q.QueueName, "leaf": q.IsLeaf, "man": q.IsManaged, "drain": q.Status == "Draining", "status": q.Status,
+		"sacl": a[0], "aacl": a[1], "tpl": tpl, "cfg": canonSettings(q.MaxRunningApps, q.MaxResource, q.GuaranteedResource, q.Properties)}
+	// the properties of the child template and the EFFECTIVE settings UpdateQueueProperties derived for the queue
+	tprops := [][]string{}
+	if t := q.TemplateInfo; t != nil {
+		tprops = pairs(t.Properties)
+	}
+	line["tprops"] = tprops
+	preempt := "default"
+	if !q.PreemptionEnabled {
+		preempt = "disabled"
+	} else if q.IsPreemptionFence {
+		preempt = "fence"
+	}
+	set := map[string]interface{}{"sort": q.SortingPolicy, "prioSort": q.PrioritySorting, "prioOffset": q.PriorityOffset, "prioFence": q.IsPriorityFence,
+		"preempt": preempt, "preemptDelay": durNs(q.PreemptionDelay), "quotaDelay": durNs(q.QuotaPreemptionDelay), "backoff": 0, "backoffDelay": 0}
+	if qq := d.part.GetQueue(q.QueueName); qq != nil {
+		set["backoff"] = qq.GetMaxAppUnschedAskBackoff()
+		set["backoffDelay"] = int64(qq.GetBackoffDelay())
+	}
+	line["set"] = set
+	*out = append(*out, line)
 	for _, ch := range q.Children {
 		d.dumpQueue(ch, out)
 	}
@@ -412,7 +432,13 @@ func (c *Ctx) genQueue(name, path string, depth int, t *genTree) map[string]inte
 		if c.chance(0.4) {
 			tpl := map[string]interface{}{"apps": 1 + c.pick(5)}
 			if c.chance(0.5) {
-				tpl["props"] = map[string]interface{}{"application.sort.policy": c.one([]string{"fifo", "fair"})}
+				// behaviour properties: what UpdateQueueProperties converts into effective settings of the created leaf
+				props := map[string]interface{}{}
+				for n := 1 + c.pick(4); n > 0; n-- {
+					k := c.one(rlPropKeys)
+					props[k] = c.one(rlPropVals[k])
+				}
+				tpl["props"] = props
 			}
 			if c.chance(0.5) {
 				tpl["max"] = map[string]interface{}{"memory": fmt.Sprint(10 + c.pick(90))}
@@ -544,7 +570,7 @@ func (c *Ctx) genQueueName(t *genTree) string {
 	case p < 58 && len(t.all) > 0:
 		return c.one(t.all) + "." + c.one([]string{"new1", "New2", "x.y", "n1.n2", "@recovery@", "bad name", longName(64), longName(65)})
 	case p < 66:
-		return c.one([]string{"root.@recovery@", "root.@RECOVERY@", "root.@Recovery@", "@recovery@", "root.p.@recovery@"})
+		return c.one([]string{"root.@recovery@", "root.@RECOVERY@", "root.@Recovery@", "@recovery@", "root.p.@recovery@", "root.@RECOVERY@.sub", "root.@Recovery@.a.b"})
 	case p < 76:
 		return c.one([]string{"root..a", "root.", "root", "rootx", "a.b", ".", "root.a b", "root.a$", "root.default", "default", "ROOT.a", "Root.b", longName(64), longName(65), "a..b", "root.\u00e4b", "root.a.", ".root", "root.a/b:c#d", "root.A_dot_B"})
 	default:
